@@ -18,7 +18,7 @@ WB = '<codec::postcard_impl::WrappedBuf as postcard::ser_flavors::Flavor>::'
 def r1_flavor(ctx, f, rep):
     rep.rule('C20-R1', 'bounded flavor: WrappedBuf::try_push writes one byte only under has_remaining_mut(), try_extend writes '
                        'the slice only under remaining_mut() >= data.len(); the failing edges return SerializeBufferFull '
-                       'without writing; finalize is a no-op')
+                       'without writing and are taken only when the data does not fit (an exact fit is written); finalize is a no-op')
     for m, need in (('try_push', 'one'), ('try_extend', 'slice')):
         b = f.fn(WB + m)
         n = 0
@@ -42,6 +42,23 @@ def r1_flavor(ctx, f, rep):
                 good = p.end == 'return' and p.ret[0] == 'agg' and p.ret[3] == 'Err' and \
                     q.variant_name(p.ret[5][0]) == 'SerializeBufferFull' and not p.writes()
                 rep.check(good, 'C20-R1', b.nname, 'no room: SerializeBufferFull and nothing written', construct='full')
+                # ... and only when there really is no room: data that fits exactly must be written
+                own = lambda v, name: v[0] == 'call' and v[1] in calls and calls[v[1]]['decl'] == 'bytes::BufMut::' + name \
+                    and calls[v[1]]['args'][0][:2] == ('ref', q.self_field('0'))
+                islen = lambda v: v[0] == 'call' and v[1] in calls and calls[v[1]]['res'].endswith('::len') and \
+                    calls[v[1]]['args'][0] in (('param', 0, 2), ('ref', ('deref', ('param', 0, 2)), False))
+                just = False
+                for c in p.conds():
+                    e, t = q.norm_bool(c)
+                    nrm = q.cmp_norm(c)
+                    if need == 'one':
+                        just = just or (t is False and own(e, 'has_remaining_mut')) or \
+                            q.zero_test(c, lambda v: own(v, 'remaining_mut')) == 'zero'
+                    else:
+                        just = just or (nrm is not None and nrm[0] == 'gt' and islen(nrm[1]) and own(nrm[2], 'remaining_mut'))
+                rep.check(just, 'C20-R1', b.nname, 'refuses only when the data does not fit (%s)' %
+                          ('no byte left' if need == 'one' else 'data.len() > remaining_mut()'), construct='full-exact',
+                          facts={'conds': [q.describe(p, c['expr'], b) for c in p.conds()]})
         rep.floor('C20-R1', n, 2, b.nname + ' paths')
     b = f.fn(WB + 'finalize')
     for p in ctx.paths(f, b, 'none'):
